@@ -106,7 +106,7 @@ end Linear
 
 /-! ## Facts that need the scalars to be a field (`n` prime) -/
 section Field
-variable {n : ℕ} [Fact n.Prime] {G : Type*} [AddCommGroup G] [Module (ZMod n) G]
+variable {n : ℕ} {G : Type*} [AddCommGroup G] [Module (ZMod n) G] [Fact n.Prime]
 
 /-- In a module over the field `ZMod n`, a nonzero point has trivial annihilator: `k•Y = k'•Y → k = k'`. -/
 theorem smul_left_cancel_of_ne_zero {Y : G} (hY : Y ≠ 0) {k k' : ZMod n} (h : k • Y = k' • Y) : k = k' := by
